@@ -1,7 +1,8 @@
+\* MUST FAIL: D_foreign_release
 \* C15 design: rlock, 3 contenders x 2 rounds (RLock nesting depth 2, semaphore value 2)
 SPECIFICATION Spec
 CONSTANTS
-  Dev = {}
+  Dev = {"D_foreign_release"}
   Procs = {p1, p2, p3}
   Kind = "rlock"
   Permits = 2
@@ -11,5 +12,4 @@ INVARIANT MutualExclusion
 INVARIANT SemBound
 INVARIANT RLockOwner
 INVARIANT FreeWhenNoHolder
-PROPERTY AllDone
 CHECK_DEADLOCK FALSE
